@@ -641,6 +641,7 @@ func runC11(c *Ctx) {
 			c.Undecided("core#head-marker-groups", token.NoPos, "no function writing two or more head markers into a batch found")
 		}
 	}
+	c11RoundE(c, c.W)
 }
 
 func collectExtracts(v ssa.Value, call ssa.CallInstruction, got map[int]bool) {
@@ -954,3 +955,104 @@ func c11Variants() []Variant {
 // opens the next iteration's group. Not used as an excuse today (no such loop
 // exists); kept conservative: always false.
 func isLoopCarried(m1, flush, m2 ssa.Instruction) bool { return false }
+
+// c11RoundE: H9 (every commitment of the header is compared before ValidateState accepts) and H10 (the two
+// in-memory heads move together).
+func c11RoundE(c *Ctx, w *World) {
+	c.Rule("C11.H9", "EXIT", "an invalid block never becomes canonical: ValidateState answers nil only after it compared, on that very path, each commitment of the header with what execution produced — gas used, bloom, receipt root, state root, validator root, staking root. A comparison made only under a condition (e.g. only when there are receipts) lets a block whose sole fault is that commitment be written with state, become head and get descendants")
+	c.Min(6)
+	{
+		vs := w.Fn("core", "BlockValidator", "ValidateState")
+		c.sawFunc(fname(vs))
+		hdrT := w.Named("core/types", "Header")
+		// comparisons that involve a header field (a load of header.F, or a block accessor named like it)
+		cmpOf := map[string][]ssa.Instruction{}
+		mentions := func(v ssa.Value, name string) bool {
+			return derivesFrom(v, func(x ssa.Value) bool {
+				if fa, ok := x.(*ssa.FieldAddr); ok && types.Identical(deref(fa.X.Type()), hdrT) {
+					if f := fieldOfAddr(fa); f != nil && f.Name() == name {
+						return true
+					}
+				}
+				if cc, ok := x.(*ssa.Call); ok {
+					if o := calleeObj(cc); o != nil && o.Name() == name && (recvName(o) == "Block" || recvName(o) == "Header") {
+						return true
+					}
+				}
+				return false
+			})
+		}
+		fields := []string{"GasUsed", "Bloom", "ReceiptHash", "Root", "ValRoot", "StakingRoot"}
+		for _, in := range allInstrs(vs) {
+			bo, ok := in.(*ssa.BinOp)
+			if !ok || (bo.Op != token.NEQ && bo.Op != token.EQL) {
+				continue
+			}
+			for _, f := range fields {
+				if mentions(bo.X, f) || mentions(bo.Y, f) {
+					cmpOf[f] = append(cmpOf[f], bo)
+				}
+			}
+		}
+		var succ []*ssa.Return
+		for _, b := range vs.Blocks {
+			if ret, isRet := b.Instrs[len(b.Instrs)-1].(*ssa.Return); isRet && len(ret.Results) > 0 {
+				if cv, isC := ret.Results[len(ret.Results)-1].(*ssa.Const); isC && cv.IsNil() {
+					succ = append(succ, ret)
+				}
+			}
+		}
+		for _, f := range fields {
+			c.sites++
+			ok := len(cmpOf[f]) > 0 && len(succ) > 0
+			for _, r := range succ {
+				if !mustPassBefore(r, cmpOf[f]) {
+					ok = false
+				}
+			}
+			c.Check(fname(vs)+"#accepts-only-after-comparing-"+f, vs.Pos(), ok, ifelse(ok, "every accepting return has passed the comparison", ifelse(len(cmpOf[f]) == 0, "header."+f+" is not compared at all", "ValidateState can accept a block on a path that skipped the comparison of header."+f+": a block whose only fault is that commitment becomes canonical")))
+		}
+	}
+
+	c.Rule("C11.H10", "ALWAYS-WITH", "the head is one block: setHeadBlock, the in-memory head setter used by insert and at the end of a reorganisation, moves the head header (hc.currentHeader) and the head block (currentBlock) together on every path. Moving the header only forward leaves CurrentHeader() on the dropped branch's tip after a competing branch of equal or lower height became canonical — neither the head block's header nor the canonical header of its number, and different from what a restart reads from the markers")
+	c.Min(1)
+	{
+		sh := w.Fn("core", "BlockChain", "setHeadBlock")
+		c.sawFunc(fname(sh))
+		var hdrStores, blkStores []ssa.Instruction
+		for _, ci := range callInstrs(sh) {
+			o := calleeObj(ci)
+			if o == nil || o.Name() != "Store" {
+				continue
+			}
+			r := callRecv(ci)
+			if r == nil {
+				continue
+			}
+			fa, ok := stripConvNoBind(r).(*ssa.FieldAddr)
+			if !ok {
+				continue
+			}
+			if f := fieldOfAddr(fa); f != nil {
+				switch f.Name() {
+				case "currentHeader":
+					hdrStores = append(hdrStores, ci.(ssa.Instruction))
+				case "currentBlock":
+					blkStores = append(blkStores, ci.(ssa.Instruction))
+				}
+			}
+		}
+		c.sites++
+		if len(blkStores) == 0 {
+			c.Undecided(fname(sh)+"#head-header-with-head-block", sh.Pos(), "no store of currentBlock found in setHeadBlock")
+		} else {
+			ok := len(hdrStores) > 0
+			for _, bs := range blkStores {
+				if !alwaysWith(bs, hdrStores) {
+					ok = false
+				}
+			}
+			c.Check(fname(sh)+"#head-header-with-head-block", blkStores[0].Pos(), ok, ifelse(ok, "the head header is stored on every path that stores the head block", "the head block can be replaced without the head header being replaced with it: CurrentHeader() and CurrentBlock() name different blocks"))
+		}
+	}
+}
